@@ -694,9 +694,14 @@ PROPS["C05"] = dict(
                 "pointers are caller errors outside the API contract and are not generated; a fatal result for a well-typed program is "
                 "counted but not judged (the statement does not exclude it)"),
     stages=[
-        dict(name="rc-compile", mode="rc", quick=dict(cases=40000, max_size=800, budget=50), thorough=dict(cases=3000000, max_size=1200, budget=1500)),
+        dict(name="enum-near-valid-instructions", mode="enum", quick=dict(budget=120), thorough=dict(budget=1200)),
+        dict(name="rc-compile", mode="rc", quick=dict(cases=30000, max_size=800, budget=40), thorough=dict(cases=3000000, max_size=1200, budget=1500)),
     ],
-    rule=("a case is (program built as valid / mutated / over-limit, 1..3 (target, flags) pairs); every compile is an inner evaluation. "
+    rule=("enumerated: every opcode x prefix (none, x2, x4) as a one-instruction program with operands of exactly the class and size each "
+          "position needs, then every operand position spoiled in 12 ways (9 sizes incl. 3, 5, 16, 32; wrong class; constant or "
+          "accumulator in the wrong role; undeclared variable) x array or temporary operands x all 8 targets (about 590 cases, "
+          "0.5 million compiles). Generated: "
+          "a case is (program built as valid / mutated / over-limit, 1..3 (target, flags) pairs); every compile is an inner evaluation. "
           "Non-trivial: every case (each reaches the compiler). Oracle: the call returns within the CPU limit with no sanitizer report or "
           "abort; the result is a documented code; fatal => no executable code attached; successful => code object, exec pointer, listing "
           "present and (valid integer program, x86 target, default flags) native run == emulation; other => code object "
